@@ -273,6 +273,7 @@ def run(P, rep, tier):
     r1312(W, engs, rep)
     LD.r1313_function(P, rep)
     LD.r1314_declspec(P, rep)
+    LD.r1315_typing(P, rep)
 
 
 def r1310_phases(P, rep):
